@@ -84,7 +84,15 @@ func (i ImportNames) TypeName(t types.Type) string {
 		}
 		return typ.Obj().Name()
 	default:
-		return t.String()
+		// Composite types (slices, maps, funcs, ...) may mention named types of other
+		// packages: qualify them with the names the setup file imports them under, not with
+		// their full import paths as Type.String() does.
+		return types.TypeString(t, func(pkg *types.Package) string {
+			if pkgName, ok := i[pkg.Path()]; ok {
+				return pkgName
+			}
+			return ""
+		})
 	}
 }
 
